@@ -597,9 +597,9 @@ Qed.
 Definition fresh (prev : list (list ritem)) (y : ritem) : bool := negb (id_in (r_id y) prev).
 
 Lemma cmu_set_spec lim prev : forall s n, (n <= lim)%nat ->
-  cmu_set lim prev s n = Nat.min lim (n + length (filter (fresh prev) s)).
+  cmu_set lim prev s n = Nat.min lim (n + length (List.filter (fresh prev) s)).
 Proof.
-  induction s as [|y r IH]; intros n Hn; cbn [cmu_set filter length].
+  induction s as [|y r IH]; intros n Hn; cbn [cmu_set List.filter length].
   - lia.
   - destruct (Nat.eqb_spec n lim) as [E|NE]; [lia|].
     unfold fresh at 1. destruct (id_in (r_id y) prev); cbn [negb].
@@ -619,7 +619,7 @@ Lemma Inv_app a b : Inv a -> Inv b -> Inv (a ++ b).
 Proof. intros Ha Hb. apply Forall_app. split; assumption. Qed.
 
 Lemma union_snoc_length prev s : Inv prev -> good s ->
-  length (union (prev ++ [s])) = (length (union prev) + length (filter (fresh prev) s))%nat.
+  length (union (prev ++ [s])) = (length (union prev) + length (List.filter (fresh prev) s))%nat.
 Proof.
   intros HI Hg.
   assert (Inv (prev ++ [s])) as HI2 by (apply Inv_app; [exact HI|constructor; [exact Hg|constructor]]).
@@ -710,6 +710,138 @@ Proof.
       destruct (any_true mores); [specialize (Hfl eq_refl)|];
         destruct (Nat.ltb_spec (Nat.min (length (union sets)) (S lim)) (length (union sets)));
         destruct (Nat.ltb_spec (S lim) (length (union sets))); cbn; try reflexivity; lia.
+Qed.
+
+
+(* ---------- pages of the shards' lists ---------- *)
+
+Lemma In_firstn {A} (z : A) k : forall l, In z (firstn k l) -> In z l.
+Proof.
+  induction k as [|k IH]; intros [|y r] H; cbn [firstn] in H; try destruct H.
+  - now left.
+  - right. now apply IH.
+Qed.
+
+Lemma ssorted_firstn k : forall s, ssorted s -> ssorted (firstn k s).
+Proof.
+  induction k as [|k IH]; intros [|y r] Hs; cbn [firstn]; try exact I.
+  destruct Hs as [Hf Hs]. split; [|now apply IH].
+  rewrite Forall_forall in Hf |- *. intros z Hz. apply Hf. eapply (In_firstn _ k); eauto.
+Qed.
+
+Lemma good_firstn k s : good s -> good (firstn k s).
+Proof.
+  intros [HU Hs]. split; [|now apply ssorted_firstn].
+  rewrite Forall_forall in HU |- *. intros z Hz. apply HU. eapply In_firstn; eauto.
+Qed.
+
+(* s is a prefix of f that contains at least its first lim items *)
+Definition prefix_of (lim : nat) (f s : list ritem) : Prop :=
+  exists k, s = firstn k f /\ (Nat.min lim (length f) <= k)%nat.
+
+Lemma prefix_Inv lim fulls sets : Inv fulls -> Forall2 (prefix_of lim) fulls sets -> Inv sets.
+Proof.
+  intros HI H. induction H as [|f s fr sr (k & -> & _) _ IH]; [constructor|].
+  inversion HI; subst. constructor; [now apply good_firstn|now apply IH].
+Qed.
+
+Lemma prefix_incl lim fulls sets : Forall2 (prefix_of lim) fulls sets ->
+  forall y, In y (concat sets) -> In y (concat fulls).
+Proof.
+  intros H. induction H as [|f s fr sr (k & -> & _) _ IH]; intros y Hy; [exact Hy|].
+  cbn [concat] in *. apply in_app_iff in Hy. apply in_app_iff. destruct Hy as [Hy|Hy].
+  - left. eapply In_firstn; eauto.
+  - right. now apply IH.
+Qed.
+
+Lemma prefix_pop lim m fulls sets : Forall2 (prefix_of (S lim)) fulls sets ->
+  Forall2 (prefix_of lim) (map (pop (r_id m)) fulls) (map (pop (r_id m)) sets).
+Proof.
+  intros H. induction H as [|f s fr sr (k & -> & Hk) _ IH]; cbn [map]; [constructor|].
+  constructor; [|exact IH].
+  destruct f as [|y r].
+  - exists 0%nat. rewrite firstn_nil. cbn. split; [reflexivity|lia].
+  - destruct k as [|k]; [cbn [length] in Hk; lia|].
+    cbn [firstn pop]. destruct (bytes_eqb (r_id y) (r_id m)).
+    + exists k. split; [reflexivity|]. cbn [length] in Hk. lia.
+    + exists (S k). split; [reflexivity|]. cbn [length] in Hk |- *. lia.
+Qed.
+
+Lemma prefix_head lim m t fulls sets : Forall2 (prefix_of (S lim)) fulls sets -> In (m :: t) fulls ->
+  In m (concat sets).
+Proof.
+  intros H. induction H as [|f s fr sr (k & -> & Hk) _ IH]; intros Hin; [destruct Hin|].
+  cbn [concat]. apply in_app_iff. destruct Hin as [->|Hin].
+  - left. destruct k as [|k]; [cbn [length] in Hk; lia|]. now left.
+  - right. now apply IH.
+Qed.
+
+Lemma prefix_all_empty lim fulls sets : Forall2 (prefix_of lim) fulls sets ->
+  Forall (fun s => s = []) fulls -> Forall (fun s => s = []) sets.
+Proof.
+  intros H. induction H as [|f s fr sr (k & -> & _) _ IH]; intros Hall; [constructor|].
+  inversion Hall; subst. constructor; [apply firstn_nil|now apply IH].
+Qed.
+
+Lemma page_union : forall lim fulls sets, Inv fulls -> Forall2 (prefix_of lim) fulls sets ->
+  firstn lim (union sets) = firstn lim (union fulls).
+Proof.
+  induction lim as [|lim IH]; intros fulls sets HI HP; [reflexivity|].
+  pose proof (prefix_Inv _ _ _ HI HP) as HIs.
+  destruct (select_top fulls HI) as [[Hall _]|(mi & m & t & _ & Hnth & Hm & Hle)].
+  - pose proof (prefix_all_empty _ _ _ HP Hall) as Halls.
+    apply all_empty_concat, (union_nil_iff _ HI) in Hall.
+    apply all_empty_concat, (union_nil_iff _ HIs) in Halls. now rewrite Hall, Halls.
+  - assert (In (m :: t) fulls) as Hmt by (eapply nth_error_In; eauto).
+    assert (In m (concat fulls)) as Hin by (apply in_concat; exists (m :: t); split; [exact Hmt|now left]).
+    assert (In m (concat sets)) as Hins by (eapply prefix_head; eauto).
+    assert (forall y, In y (concat sets) -> ile m y) as Hles by (intros y Hy; apply Hle; eapply prefix_incl; eauto).
+    rewrite (union_step m fulls Hm HI Hin Hle), (union_step m sets Hm HIs Hins Hles).
+    cbn [firstn]. f_equal. apply IH.
+    + apply (pop_all m fulls Hm HI Hle).
+    + now apply prefix_pop.
+Qed.
+
+Lemma any_true_map {A} (g : A -> bool) l : any_true (map g l) = existsb g l.
+Proof. induction l as [|x r IH]; cbn; [reflexivity|]. unfold any_true in IH. now rewrite IH. Qed.
+
+Lemma map_firstn_all lim (fulls : list (list ritem)) : Forall (fun f => (length f <= lim)%nat) fulls ->
+  map (firstn lim) fulls = fulls.
+Proof.
+  induction 1 as [|f r Hf _ IH]; cbn [map]; [reflexivity|]. rewrite IH. f_equal. now apply firstn_all2.
+Qed.
+
+(* the statement of the property for one merge: every set is the page (first
+   lim items) of its shard's index-ordered list, with the flag "the shard has
+   more"; the result is the page of the union and its flag is exact *)
+Theorem merge_pages lim fulls : Inv fulls -> (0 < lim)%nat ->
+  merge_results dec_oid dec_usr lim first_attr cmp_int
+    (map (firstn lim) fulls) (map (fun f => Nat.ltb lim (length f)) fulls)
+  = Some (firstn lim (union fulls), Nat.ltb lim (length (union fulls))).
+Proof.
+  intros HI Hlim.
+  assert (Forall2 (prefix_of lim) fulls (map (firstn lim) fulls)) as HP.
+  { clear HI. induction fulls as [|f r IH]; cbn [map]; constructor; [|exact IH].
+    exists lim. split; [reflexivity|lia]. }
+  pose proof (prefix_Inv _ _ _ HI HP) as HIs.
+  assert (forall f, In f fulls -> Nat.ltb lim (length f) = true -> (lim <= length (union (map (firstn lim) fulls)))%nat) as Hpage.
+  { intros f Hf Hlt. apply Nat.ltb_lt in Hlt.
+    pose proof (good_len_union (firstn lim f) _ HIs (in_map _ _ _ Hf)) as H.
+    rewrite firstn_length in H. lia. }
+  rewrite merge_sorted; auto.
+  - rewrite (page_union lim fulls _ HI HP). f_equal. f_equal.
+    rewrite any_true_map.
+    destruct (existsb (fun f => Nat.ltb lim (length f)) fulls) eqn:Ex.
+    + rewrite orb_true_r. symmetry. apply Nat.ltb_lt.
+      apply existsb_exists in Ex. destruct Ex as (f & Hf & Hlt). apply Nat.ltb_lt in Hlt.
+      pose proof (good_len_union f fulls HI Hf). lia.
+    + rewrite orb_false_r.
+      assert (map (firstn lim) fulls = fulls) as ->; [|reflexivity].
+      apply map_firstn_all. rewrite Forall_forall. intros f Hf.
+      destruct (Nat.ltb_spec lim (length f)) as [L|G]; [|exact G].
+      exfalso. assert (existsb (fun f => Nat.ltb lim (length f)) fulls = true) as Ht; [|congruence].
+      apply existsb_exists. exists f. split; [exact Hf|now apply Nat.ltb_lt].
+  - rewrite any_true_map. intros Ex. apply existsb_exists in Ex. destruct Ex as (f & Hf & Hlt). eapply Hpage; eauto.
 Qed.
 
 End Generic.
